@@ -1,7 +1,8 @@
 """C17 — event queue: nothing lost, duplicated or reordered; injections delivered once (EventQueue.tla).
 
 Binding B1: TLC enumerates every interleaving of {viewer polls (fresh ack / repeated ack after a
-lost response), simulator answers with 1-2 events of several shapes (plain / region-announcing),
+lost response), simulator answers with 1-2 events of several shapes (untemplated / templated with a complete body, an
+omitted block or an empty block / region-announcing),
 addons swallow any subset of the plain events, addon injects, non-200 answer, region teardown}
 up to the depth bound.  Every edge is replayed into a fresh real Session / ProxiedRegion behind the
 real MITMProxyEventManager._handle_request / _handle_response (mitmproxy flows, state-serialised
@@ -16,6 +17,7 @@ ride on the next event-carrying response, behind the simulator's events).
 from __future__ import annotations
 
 import gc
+import struct
 
 from . import common
 from .common import Check, Graph, impl_call, skey
@@ -88,6 +90,26 @@ class World:
         k, x = kind["k"], kind["reg"]
         if k == "p":
             ev = {"message": "VerifPlainEvent", "body": {"n": vid}}
+        elif k in ("tc", "to", "te"):
+            # A templated message whose variable-count GroupData block holds a U64 (GroupPowers) the proxy has to
+            # unpack; written out by hand (not with the serializer under test) the way a simulator sends it.
+            # "to": the agent is in no groups and the block is left out; "te": it is there but empty.
+            group = {"GroupID": UUID(int=7000 + vid), "GroupPowers": struct.pack(">Q", (1 << 40) | vid), "AcceptNotices": True,
+                     "GroupInsigniaID": UUID(int=7100 + vid), "GroupName": "group %d" % vid}
+            if vid % 2:
+                body = {"AgentData": [{"AgentID": UUID(int=3001)}]}
+                group["Contribution"] = 0
+                name = "AgentGroupDataUpdate"
+            else:
+                body = {"AgentData": [{"AgentID": UUID(int=3001), "AvatarID": UUID(int=3001)}],
+                        "NewGroupData": [{"ListInProfile": True}]}
+                group["GroupTitle"] = "member"
+                name = "AvatarGroupsReply"
+            if k == "tc":
+                body["GroupData"] = [group, dict(group, GroupID=UUID(int=7200 + vid))]
+            elif k == "te":
+                body["GroupData"] = []
+            ev = {"message": name, "body": body}
         elif k == "EAC":
             ev = {"message": "EstablishAgentCommunication",
                   "body": {"agent-id": UUID(int=3001), "sim-ip-and-port": "%s:%d" % ADDRS[x], "seed-capability": SEEDS[x]}}
@@ -249,12 +271,19 @@ def _replay_chunk(edge_ids):
     g = _G
     out = []
     queries = 0
-    for ei in edge_ids:
+    for item in edge_ids:
+        # item = edge index, or (self-loop edge, following edge): BFS-tree paths never contain an edge that leaves
+        # the abstract state unchanged (a poll answered from the cache and lost again), so it is replayed first
+        pre = []
+        if isinstance(item, tuple):
+            pre, ei = [g.edges[item[0]]], item[1]
+        else:
+            ei = item
         e = g.edges[ei]
         w = World()
         hist = []
         bad = []
-        for pe in g.path_to(e["_s"]):
+        for pe in g.path_to(e["_s"]) + pre:
             st, got = w.apply(pe["act"])
             hist.append(pe["act"])
         st, got = w.apply(e["act"])
@@ -295,7 +324,9 @@ def _b1(chk: Check, consts, label):
     if len(g.edges) < 100:
         raise common.MachineryError("EventQueue_MBT exported only %d edges" % len(g.edges))
     _G = g
-    ids = g.reachable_edges()
+    pairs = g.selfloop_pairs()
+    ids = g.reachable_edges() + pairs
+    chk.cov["b1_selfloop_pairs_replayed"] = chk.cov.get("b1_selfloop_pairs_replayed", 0) + len(pairs)
     World()                         # import the implementation once, before forking
     gc.collect()
     gc.freeze()                     # the exported graph is shared read-only with the workers
@@ -330,13 +361,13 @@ def run(chk: Check):
     chk.assumptions += [
         "the viewer has one poll outstanding per region and repeats a poll with the same ack after a lost response",
         "the simulator never re-sends events; a 200 answer carries at least one event or an undef body",
-        "addons swallow only plain events (registration after a swallowed region announcement is left open)",
+        "addons swallow only events that announce no region (registration after a swallowed announcement is left open)",
         "what was owed or queued at a region teardown is dropped with the region; the simulator does not answer a poll "
         "that was outstanding at teardown",
         "events are identified by an extra key on the event map, which the proxy hands through untouched",
     ]
     if chk.tier == "quick":
-        _b1(chk, dict(MaxEv=4, MaxInj=2, MaxDown=1, Batches="1,2,3,4,5,6", Depth=7), "ev4-d7")
+        _b1(chk, dict(MaxEv=4, MaxInj=2, MaxDown=1, Batches="1,2,3,4,5,6,7", Depth=7), "ev4-d7")
     else:
-        _b1(chk, dict(MaxEv=5, MaxInj=2, MaxDown=1, Batches="1,2,3,4,5,6", Depth=9), "ev5-d9")
+        _b1(chk, dict(MaxEv=5, MaxInj=2, MaxDown=1, Batches="1,2,3,4,5,6,7", Depth=9), "ev5-d9")
     chk.cov["exhaustive"] = True
